@@ -147,13 +147,16 @@ def parse_replay(resp):
 
 
 def scale_of(B):
-    """largest initial sensor-row norm (exact upper bound as Fraction), ≥ 1"""
+    """largest initial sensor-row norm, rounded up to a power of two (exact Fraction); 1 for the zero matrix"""
     from fractions import Fraction
     mx = max((sum(C.frac(x) ** 2 for x in row) for row in B.tolist()), default=Fraction(0))
-    # a rational upper bound of the square root
+    if mx == 0:
+        return Fraction(1)
     s = Fraction(1)
     while s * s < mx:
         s *= 2
+    while (s / 2) * (s / 2) >= mx:
+        s /= 2
     return s
 
 
